@@ -2,10 +2,64 @@ use std::{collections::BTreeMap, fmt::Write};
 
 use crate::{escape::gen_lit_str, proc_gen::JsFunctionScopeWriter, TmplError};
 
+/// Verification hooks: a thread-local sink recording every call on a `BindingMapCollector`.
+#[cfg(glass_easel_verif)]
+pub mod verif_bm_trace {
+    use std::cell::{Cell, RefCell};
+
+    /// `op`: 1 new, 2 add_field (`ret`: the slot, -1 for none), 3 disable_field, 4 disable_all,
+    /// 5 list_fields (`list`: what it yields).
+    #[derive(Debug, Clone)]
+    pub struct Ev {
+        pub op: u8,
+        pub id: u32,
+        pub field: String,
+        pub ret: i64,
+        pub list: Vec<(String, usize)>,
+    }
+
+    thread_local! {
+        static SINK: RefCell<Option<Vec<Ev>>> = RefCell::new(None);
+        static NEXT_ID: Cell<u32> = Cell::new(1);
+    }
+
+    pub fn start() {
+        SINK.with(|s| *s.borrow_mut() = Some(vec![]));
+    }
+
+    pub fn take() -> Vec<Ev> {
+        SINK.with(|s| s.borrow_mut().take().unwrap_or_default())
+    }
+
+    pub(crate) fn next_id() -> u32 {
+        NEXT_ID.with(|n| {
+            let id = n.get();
+            n.set(id + 1);
+            id
+        })
+    }
+
+    pub(crate) fn emit(op: u8, id: u32, field: &str, ret: i64, list: Vec<(String, usize)>) {
+        SINK.with(|s| {
+            if let Some(v) = s.borrow_mut().as_mut() {
+                v.push(Ev {
+                    op,
+                    id,
+                    field: field.to_owned(),
+                    ret,
+                    list,
+                });
+            }
+        });
+    }
+}
+
 #[derive(Debug, Clone)]
 pub(crate) struct BindingMapCollector {
     overall_disabled: bool,
     fields: BTreeMap<String, BindingMapField>,
+    #[cfg(glass_easel_verif)]
+    verif_id: u32,
 }
 
 #[derive(Debug, Clone)]
@@ -16,14 +70,24 @@ pub(crate) enum BindingMapField {
 
 impl BindingMapCollector {
     pub(crate) fn new() -> Self {
+        #[cfg(glass_easel_verif)]
+        let verif_id = {
+            let id = verif_bm_trace::next_id();
+            verif_bm_trace::emit(1, id, "", 0, vec![]);
+            id
+        };
         Self {
             overall_disabled: false,
             fields: BTreeMap::new(),
+            #[cfg(glass_easel_verif)]
+            verif_id,
         }
     }
 
     pub(crate) fn disable_all(&mut self) {
         self.overall_disabled = true;
+        #[cfg(glass_easel_verif)]
+        verif_bm_trace::emit(4, self.verif_id, "", 0, vec![]);
     }
 
     pub(crate) fn add_field(&mut self, field: &str) -> Option<usize> {
@@ -34,14 +98,20 @@ impl BindingMapCollector {
         if let BindingMapField::Mapped(x) = x {
             let ret = *x;
             *x += 1;
+            #[cfg(glass_easel_verif)]
+            verif_bm_trace::emit(2, self.verif_id, field, ret as i64, vec![]);
             return Some(ret);
         }
+        #[cfg(glass_easel_verif)]
+        verif_bm_trace::emit(2, self.verif_id, field, -1, vec![]);
         None
     }
 
     pub(crate) fn disable_field(&mut self, field: &str) {
         self.fields
             .insert(field.to_owned(), BindingMapField::Disabled);
+        #[cfg(glass_easel_verif)]
+        verif_bm_trace::emit(3, self.verif_id, field, 0, vec![]);
     }
 
     pub(crate) fn get_field(&self, field: &str) -> Option<()> {
@@ -55,6 +125,20 @@ impl BindingMapCollector {
     }
 
     pub(crate) fn list_fields(&self) -> impl Iterator<Item = (&str, usize)> {
+        #[cfg(glass_easel_verif)]
+        verif_bm_trace::emit(
+            5,
+            self.verif_id,
+            "",
+            0,
+            self.list_fields_inner()
+                .map(|(k, n)| (k.to_owned(), n))
+                .collect(),
+        );
+        self.list_fields_inner()
+    }
+
+    fn list_fields_inner(&self) -> impl Iterator<Item = (&str, usize)> {
         let overall_disabled = self.overall_disabled;
         self.fields.iter().filter_map(move |(key, field)| {
             if overall_disabled {
